@@ -76,6 +76,31 @@ func observeCommon(res *fw.Result, rec *drive.CallRecord) {
 	}
 	if rec.OK() && rec.Session != nil {
 		res.Seen("state_shapes", stateShape(rec.Session))
+		// size classes of the session that is handed back
+		maxPath, waits := 0, 0
+		for _, r := range rec.Session.Runs() {
+			if n := len(r.Path()); n > maxPath {
+				maxPath = n
+			}
+			for _, e := range r.Events() {
+				if t := e.Type(); t == "msg_wait" || t == "dial_wait" {
+					waits++
+				}
+			}
+		}
+		for _, b := range []int{10, 100, 250} {
+			if maxPath > b {
+				res.Count(fmt.Sprintf("size.path_over_%d", b), 1)
+			}
+		}
+		for _, b := range []int{5, 20, 50} {
+			if waits > b {
+				res.Count(fmt.Sprintf("size.waits_over_%d", b), 1)
+			}
+		}
+		if n := len(rec.Session.Runs()); n > 10 {
+			res.Count("size.runs_over_10", 1)
+		}
 	}
 }
 
